@@ -50,10 +50,22 @@ CLAIMED = {
           "Seeded op sequences on the real BlockCachedDatabase (5 key types), BlockDatabase and BlockHistoryCacheData over RocksDB on tmpfs, checked step by step against a trivial model: all point reads after every step, range scans complete and ordered, full scans, rollback inside the window right, deeper rollbacks refused or right, <= 11 persisted versions. A 7-letter alphabet is enumerated to depth 5/7 as a supplement. Sampling, not proof.",
           "Window measured from the highest block the table has ever been told about (what pruning is relative to). Component preconditions (monotone block numbers) respected by the generator.",
           "DESIGN.md 4 C13"),
+  "C16": ("exploration", "deterministic simulation: seeded chain states, gas-allowance sweep per program and estimate -> transaction loop closed on the same instance",
+          "In chain states reached by seeded histories (commits, reorgs), generated programs are submitted with inscription lengths from 0 to 2^64-1: gasUsed <= saturating allowance, failed transactions leave accounts/code/storage unchanged except the sender's nonce, and eth_estimateGas -> brc20_call with ceil(estimate/12000) bytes succeeds with eth_call's output. Sampling, not proof.",
+          "Programs that swallow sub-call failures or read GAS/TIMESTAMP/PREVRANDAO/0xfa are excluded as the statement allows.",
+          "DESIGN.md 4 C16"),
+  "C17": ("exploration", "deterministic simulation: seeded chain states, eth_call followed by the same transaction on the same instance",
+          "At block boundaries of seeded histories eth_call (calls and creations) is compared with the transaction executed next with the same sender, target and data and the same gas limit: success flag, return / revert data, installed code of creations. Sampling, not proof.",
+          "EVM_CALL_GAS_LIMIT is configured to the allowance of the transactions (24M) so both paths run with the same limit; the Probe program (time, randomness, txid) is excluded.",
+          "DESIGN.md 4 C17"),
   "C18": ("exploration", "deterministic simulation: seeded histories x commit schedules x hash seeds, reference log filter over the receipts handed to the indexer",
           "Seeded histories with 0-4-topic logs under all commit schedules and hash seeds (committed, partly committed and uncommitted ranges), 4 seeded filters per block boundary compared with a reference filter: same logs, each once, chain order; too-wide ranges refused. Sampling, not proof.",
           "Empty alternative lists, null inside a list and the answer to a reversed range are left open by the statement and not judged (a panic is).",
           "DESIGN.md 4 C18"),
+  "C19": ("exploration", "deterministic simulation: Probe contract executed through every transaction path (inscription, signed, parked-then-drained, via contract) and read back",
+          "Seeded histories on 6 networks (with / without Prague at low heights) execute a context-recording contract as inscription, signed, parked-then-drained and nested transaction, with arbitrary timestamps, explicit and generated hashes, idle gaps > 256 blocks, commits and reorgs; every recorded field is compared with what the harness supplied for that transaction. Sampling, not proof.",
+          "Activation heights themselves are not reached (mining 275000 blocks per run is too slow).",
+          "DESIGN.md 4 C19"),
 }
 
 NOT_APPLICABLE = {
